@@ -9,7 +9,7 @@ import re
 import sys
 import tempfile
 
-sys.path.insert(0, "/repo")
+sys.path.insert(0, os.environ.get("POLAR_REPO", "/repo"))
 
 
 def rec_goals(text, goals, opts):
